@@ -1,4 +1,4 @@
 SPECIFICATION Spec
-INVARIANTS Scaled
+INVARIANTS Scaled ScaledVars
 POSTCONDITION Post
 CHECK_DEADLOCK FALSE
